@@ -113,15 +113,31 @@ func runCase(run *vh.Run, idx int, c Case) *obs {
 	defer func() {
 		// the Coq case: structured query, reference available, every union selection covers all members (the
 		// null thunder's executor renders for an uncovered member, DESIGN F5, is not part of the model's contract)
-		if searching || c.QueryText != "" || c.Mutation || c.Wide || timedOut || g.sync.last == nil {
+		if searching {
+			return
+		}
+		switch {
+		case c.QueryText != "":
+			run.Hist("model:not-evaluated:query-given-as-text(corpus)")
+			return
+		case c.Mutation:
+			run.Hist("model:not-evaluated:mutation")
+			return
+		case c.Wide:
+			run.Hist("model:not-evaluated:wide-list")
+			return
+		case timedOut || g.sync.last == nil:
+			run.Hist("model:not-evaluated:no-answer")
 			return
 		}
 		// coverage of the unions once the directives are applied (a member fragment left without content covers nothing)
 		if pa, ok := prunedForAnalysis(&c, frags); !ok || hasPartialUnion(&pa, map[string]FragDef{}) {
+			run.Hist("model:not-evaluated:partial-union-coverage")
 			return
 		}
 		ref, refErr := runReference(&c, w)
 		if refErr != "" {
+			run.Hist("model:not-evaluated:reference-evaluator-rejects")
 			return
 		}
 		refC, _ := canonJSON(ref)
@@ -129,6 +145,7 @@ func runCase(run *vh.Run, idx int, c Case) *obs {
 		np := &nodePrinter{c: &c, frags: frags, fields: fieldMap(c.Services)}
 		qTerm := np.selsCoq("Query", c.Query)
 		if np.bad {
+			run.Hist("model:not-evaluated:query-not-printable")
 			return
 		}
 		calls, orgs := worldCoq(w, fieldMap(c.Services))
@@ -148,6 +165,15 @@ func runCase(run *vh.Run, idx int, c Case) *obs {
 		if allFed {
 			run.Hist("model:all-objects-federated")
 		}
+		// the premises of Props/C06.subquery_closed (fed_ok, plain_ok) are evaluated where every service has a federated
+		// object (a service without one has no _federation on its Query); the plain object Leaf is allowed
+		everySvcFederates := true
+		for _, s := range c.Services {
+			everySvcFederates = everySvcFederates && len(s.Objects) > 0
+		}
+		if everySvcFederates {
+			run.Hist("model:premises-of-subquery-closed-hold")
+		}
 		// the premises of Props/C06.federation_transparent, as far as the harness can see them (the Coq side
 		// evaluates the precise ones on every case counted here)
 		// (since round 7 the theorem covers the plain, non-federated object Leaf: all-objects-federated is no longer required)
@@ -157,7 +183,7 @@ func runCase(run *vh.Run, idx int, c Case) *obs {
 			run.Hist("model:premises-of-transparency-theorem-hold")
 		}
 		ob.coq = fmt.Sprintf("mk_case %s %s %s %s %s %s %s %s (Some %s) %s %s", info.term, calls, orgs, qTerm, vh.CoqBool(info.explicit),
-			flatTerm, planTerm, answerTerm, vh.CoqJSON(refC), vh.CoqBool(allFed), vh.CoqBool(inScope))
+			flatTerm, planTerm, answerTerm, vh.CoqJSON(refC), vh.CoqBool(everySvcFederates), vh.CoqBool(inScope))
 	}()
 	g.mu.Lock()
 	ob.res.subs = append([]subRequest{}, g.log...)
